@@ -112,7 +112,11 @@ func newModelGM(t *rapid.T, f fataler, names []string, gen kit.GenCfg) *gm {
 }
 
 func newGMf(t *rapid.T, f fataler, names []string, gen kit.GenCfg) *gm {
-	g := &gm{t: t, f: f, h: NewWHub(kit.HubOpts{}), m: kit.NewModel(), names: names, gen: gen, cls: map[string]bool{}}
+	return newGMfo(t, f, names, gen, kit.HubOpts{})
+}
+
+func newGMfo(t *rapid.T, f fataler, names []string, gen kit.GenCfg, ho kit.HubOpts) *gm {
+	g := &gm{t: t, f: f, h: NewWHub(ho), m: kit.NewModel(), names: names, gen: gen, cls: map[string]bool{}}
 	g.pool = g.h.Pool()
 	for _, n := range names {
 		if _, err := g.h.Dsm.CreateDataset(n, nil); err != nil {
